@@ -9,7 +9,7 @@ use crate::dictionary::connector::raw_connector::scorer::{
 use crate::dictionary::connector::raw_connector::{RawConnectorBuilder, INVALID_FEATURE_ID};
 use crate::dictionary::connector::{Connector, ConnectorCost, MatrixConnector};
 use crate::dictionary::mapper::ConnIdMapper;
-use crate::errors::Result;
+use crate::errors::{Result, VibratoError};
 use crate::num::U31;
 
 #[derive(Decode, Encode)]
@@ -156,6 +156,13 @@ impl DualConnector {
             feat_template_size,
             mut scorer_builder,
         } = RawConnectorBuilder::from_readers(right_rdr, left_rdr, cost_rdr)?;
+        // SIMD_SIZE templates go to the raw part; the rest is summed into the matrix.
+        if feat_template_size < SIMD_SIZE {
+            return Err(VibratoError::invalid_argument(
+                "dual_connector",
+                "The dual connector requires at least 8 feature templates.",
+            ));
+        }
         let scorer = scorer_builder.build();
 
         // Split features into RawConnector and MatrixConnector
